@@ -27,11 +27,51 @@ type Loop struct {
 	dec0    Term
 	hasDec  bool
 	frames  []loopFrame
+	accs    []func(st *State) Term
 }
 
 type loopFrame struct {
-	key string
-	f   func(now Term) Term
+	key  string
+	f    func(now Term) Term
+	fkey string
+}
+
+// onlySelfAppended: every store to local a inside the loop assigns append(a', ...) or a slice of a',
+// where a' is a value loaded from a.
+func (fr *Frame) onlySelfAppended(lp *Loop, a *ssa.Alloc) bool {
+	fromSelf := func(v ssa.Value) bool {
+		for depth := 0; depth < 4; depth++ {
+			switch n := v.(type) {
+			case *ssa.UnOp:
+				return n.X == a
+			case *ssa.Slice:
+				v = n.X
+			case *ssa.Call:
+				b, ok := n.Call.Value.(*ssa.Builtin)
+				if !ok || b.Name() != "append" {
+					return false
+				}
+				v = n.Call.Args[0]
+			default:
+				return false
+			}
+		}
+		return false
+	}
+	found := false
+	for b := range lp.body {
+		for _, in := range b.Instrs {
+			st, ok := in.(*ssa.Store)
+			if !ok || st.Addr != a {
+				continue
+			}
+			found = true
+			if !fromSelf(st.Val) {
+				return false
+			}
+		}
+	}
+	return found
 }
 
 // stableTerm: the term mentions no constant created after the stamp.
@@ -73,7 +113,7 @@ func (fr *Frame) loopFrame(lp *Loop, k string, wild map[string]bool, refs map[st
 	allocE := se.alloc
 	return func(now Term) Term {
 		fr.x.ctx.n++
-		rv := Term{fmt.Sprintf("r$%d", fr.x.ctx.n), SInt}
+		rv := Term{S: fmt.Sprintf("r$%d", fr.x.ctx.n), Sort: SInt}
 		cs := []Term{Lt(IntLit(0), rv), Lt(rv, allocE)}
 		for _, r := range rs {
 			cs = append(cs, Neq(rv, r))
@@ -89,30 +129,32 @@ type RetEdge struct {
 }
 
 type Frame struct {
-	x        *Exec
-	fn       *ssa.Function
-	vals     map[ssa.Value]*Value
-	edges    map[*ssa.BasicBlock][]Edge
-	loops    map[*ssa.BasicBlock]*Loop
-	order    []*ssa.BasicBlock
-	rets     []RetEdge
-	depth    int
-	fc       *FuncContract // contract of this function (loop invariants)
-	entrySt  *State
-	args     []*Value
-	argVars  map[string]*Value
-	prefix   string
-	reach    Term
-	cur      *State
-	curBlock *ssa.BasicBlock
-	incoming []Edge
-	dryStack []*Loop
-	defers   []*ssa.Defer
-	parent   *Frame
-	freeVars map[*ssa.FreeVar]*Value
-	dead     bool // current path ended (panic / no-return)
-	counters map[string]int
+	x           *Exec
+	fn          *ssa.Function
+	vals        map[ssa.Value]*Value
+	edges       map[*ssa.BasicBlock][]Edge
+	loops       map[*ssa.BasicBlock]*Loop
+	order       []*ssa.BasicBlock
+	rets        []RetEdge
+	depth       int
+	fc          *FuncContract // contract of this function (loop invariants)
+	entrySt     *State
+	args        []*Value
+	argVars     map[string]*Value
+	prefix      string
+	reach       Term
+	cur         *State
+	curBlock    *ssa.BasicBlock
+	incoming    []Edge
+	dryStack    []*Loop
+	defers      []*ssa.Defer
+	parent      *Frame
+	freeVars    map[*ssa.FreeVar]*Value
+	dead        bool // current path ended (panic / no-return)
+	counters    map[string]int
 	curInstrPos token.Pos
+	resNames map[string]bool
+	freshNames map[string]*Value
 }
 
 type unsupported struct{ msg string }
@@ -305,6 +347,20 @@ func (fr *Frame) merge(edges []Edge, b *ssa.BasicBlock) (Term, *State) {
 	}
 	reach := c.Name(fmt.Sprintf("R%d", b.Index), Or(conds...))
 	out := &State{heap: map[string]Term{}, base: edges[0].st.base, locals: map[ssa.Value]*Value{}}
+	for k, rec := range edges[0].st.content {
+		same := true
+		for _, e := range edges[1:] {
+			if e.st.content[k] != rec {
+				same = false
+			}
+		}
+		if same {
+			if out.content == nil {
+				out.content = map[string]*contentRec{}
+			}
+			out.content[k] = rec
+		}
+	}
 	mergeTerms := func(ts []Term, hint string) Term {
 		same := true
 		for _, t := range ts[1:] {
@@ -409,6 +465,9 @@ func (fr *Frame) merge(edges []Edge, b *ssa.BasicBlock) (Term, *State) {
 					t = Ite(edges[idx[i]].cond, vs[i].C[j], t)
 				}
 				t = c.Name("l_"+k.Name(), t)
+				if len(vs) == 2 {
+					fr.x.iteDefs[t.S] = [3]Term{edges[idx[0]].cond, vs[0].C[j], vs[1].C[j]}
+				}
 			}
 			nv.C[j] = t
 		}
@@ -478,6 +537,7 @@ func (fr *Frame) enterLoop(lp *Loop, edges []Edge, order []*ssa.BasicBlock) {
 	reach = c.Name(fmt.Sprintf("Rloop%d", lp.ordinal), reach)
 	invs := fr.loopInvariants(lp)
 	lp.frames = nil
+	lp.accs = nil
 	// 1. invariants hold on entry
 	envE := fr.loopEnv(lp, se)
 	for i, inv := range invs {
@@ -540,9 +600,10 @@ func (fr *Frame) enterLoop(lp *Loop, edges []Edge, order []*ssa.BasicBlock) {
 		c.Assume(x.eng.rangeAxiom(k, nt))
 		// automatic loop frame: objects allocated before the loop that the body never
 		// writes keep their contents (checked again at every back edge)
-		if fc := fr.loopFrame(lp, k, wild, refs, stamp, se); fc != nil {
+		fkey := fmt.Sprintf("%s|%d|%s", fr.fn.Name(), lp.ordinal, k)
+		if fc := fr.loopFrame(lp, k, wild, refs, stamp, se); fc != nil && !x.eng.disabledFrames[x.cur.fnName+"|"+fkey] {
 			c.Assume(Implies(reach, fc(nt)))
-			lp.frames = append(lp.frames, loopFrame{k, fc})
+			lp.frames = append(lp.frames, loopFrame{k, fc, fkey})
 			x.heapSetFresh(sh, k, nt)
 			for _, r := range refs[k] {
 				x.heapSetAt(sh, k, nt, r)
@@ -572,6 +633,20 @@ func (fr *Frame) enterLoop(lp *Loop, edges []Edge, order []*ssa.BasicBlock) {
 		}
 		x.setLocal(sh, a, nv)
 		invTerms = append(invTerms, x.eng.typeInv(nv, sh.alloc))
+		// accumulator idiom: a local slice that the loop only re-assigns from append/slicing of
+		// itself keeps its original backing array or one allocated inside the loop
+		if al, ok := a.(*ssa.Alloc); ok && isSlice(old.T) && fr.onlySelfAppended(lp, al) {
+			inv := Or(Eq(nv.C[0], old.C[0]), Eq(nv.C[0], IntLit(0)), Ge(nv.C[0], se.alloc))
+			invTerms = append(invTerms, inv)
+			entryRef, allocE := old.C[0], se.alloc
+			lp.accs = append(lp.accs, func(st *State) Term {
+				cur := st.locals[al]
+				if cur == nil {
+					return TTrue
+				}
+				return Or(Eq(cur.C[0], entryRef), Eq(cur.C[0], IntLit(0)), Ge(cur.C[0], allocE))
+			})
+		}
 		if rg, ok := a.(*ssa.Range); ok {
 			if sv := fr.vals[rg.X]; sv != nil && isString(sv.T) {
 				invTerms = append(invTerms, Le(IntLit(0), nv.C[0]), Le(nv.C[0], sv.C[2]))
@@ -582,7 +657,7 @@ func (fr *Frame) enterLoop(lp *Loop, edges []Edge, order []*ssa.BasicBlock) {
 	// 4. assume invariants
 	envH := fr.loopEnv(lp, sh)
 	for _, inv := range invs {
-		t, err := envH.EvalBool(inv.E)
+		t, err := envH.EvalAssume(inv.E)
 		if err != nil {
 			continue
 		}
@@ -651,8 +726,14 @@ func (fr *Frame) checkLoopBack(lp *Loop, cond Term, st *State) {
 		}
 		fr.obligation("inv-preserve", fmt.Sprintf("loop%d.%s", lp.ordinal, labelOr(inv.Label, i+1)), cond, t, inv.Text)
 	}
+	for i, acc := range lp.accs {
+		fr.obligation("inv-preserve", fmt.Sprintf("loop%d.auto-accumulator%d", lp.ordinal, i+1), cond, acc(st), "a slice only appended to keeps its own or a loop-allocated backing array")
+	}
 	for _, lf := range lp.frames {
 		fr.obligation("inv-preserve", fmt.Sprintf("loop%d.auto-frame %s", lp.ordinal, shortKey(lf.key)), cond, lf.f(fr.x.heapGet(st, lf.key)), "objects not written by the loop body are unchanged")
+		if n := len(fr.x.ctx.obls); n > 0 {
+			fr.x.ctx.obls[n-1].AutoFrame = fr.x.cur.fnName + "|" + lf.fkey
+		}
 	}
 	if ai := fr.autoInv(lp, st); ai.S != "true" {
 		fr.obligation("inv-preserve", fmt.Sprintf("loop%d.auto-rangeindex", lp.ordinal), cond, ai, "range index within bounds")
